@@ -13,13 +13,16 @@ package main
 
 import (
 	"bytes"
+	"encoding/json"
 	"errors"
 	"flag"
 	"fmt"
 	"io"
 	"os"
 	"path/filepath"
+	"runtime/debug"
 	"sort"
+	"strings"
 	"time"
 
 	"github.com/golang/protobuf/proto"
@@ -32,6 +35,87 @@ import (
 )
 
 const e1Network = "robustirc.net"
+
+func firstDiff(a, b string) string {
+	la, lb := strings.Split(a, "\n"), strings.Split(b, "\n")
+	for k := 0; k < len(la) || k < len(lb); k++ {
+		var x, y string
+		if k < len(la) {
+			x = la[k]
+		}
+		if k < len(lb) {
+			y = lb[k]
+		}
+		if x != y {
+			return fmt.Sprintf("line %d:\n  A: %s\n  B: %s", k+1, x, y)
+		}
+	}
+	return "(equal)"
+}
+
+// wellFormed: C15 - one IRC line: <=510 bytes, no CR/LF/NUL, optional well-formed prefix, then a command.
+func wellFormed(data string) string {
+	if len(data) > 510 {
+		return fmt.Sprintf("too-long(%d bytes)", len(data))
+	}
+	for k := 0; k < len(data); k++ {
+		switch data[k] {
+		case '\n':
+			return "contains-LF"
+		case '\r':
+			return "contains-CR"
+		case 0:
+			return "contains-NUL"
+		}
+	}
+	rest := data
+	if strings.HasPrefix(rest, ":") {
+		sp := strings.IndexByte(rest, ' ')
+		if sp < 0 {
+			return "prefix-without-command"
+		}
+		if sp == 1 {
+			return "empty-prefix"
+		}
+		rest = rest[sp+1:]
+	}
+	rest = strings.TrimLeft(rest, " ")
+	if rest == "" {
+		return "no-command"
+	}
+	cmd := rest
+	if sp := strings.IndexByte(rest, ' '); sp >= 0 {
+		cmd = rest[:sp]
+	}
+	if cmd == "" || strings.HasPrefix(cmd, ":") {
+		return "no-command"
+	}
+	for _, c := range cmd {
+		if !((c >= 'A' && c <= 'Z') || (c >= 'a' && c <= 'z') || (c >= '0' && c <= '9')) {
+			return "bad-command"
+		}
+	}
+	return ""
+}
+
+func stackString() string { return string(debug.Stack()) }
+
+func jsonMarshal(v interface{}) ([]byte, error) { return json.Marshal(v) }
+
+func trunc(s string, n int) string {
+	if len(s) > n {
+		return s[:n] + "…"
+	}
+	return s
+}
+
+func firstLinesOf(s string, n int) string {
+	l := strings.Split(s, "\n")
+	if len(l) > n {
+		l = l[:n]
+	}
+	return strings.Join(l, "\n")
+}
 
 type logEntry struct {
 	Index uint64
